@@ -54,6 +54,9 @@ def native_selftest(ctx):
     rc, out = native(["selftest"])
     if rc != 0 or "SELFTEST-OK" not in out:
         return False, out
+    # generated inputs of the harness crate (jump polynomials derived from the real code)
+    import hybrid
+    ctx["jump_problems"] = hybrid.write_jump_polys()
     return True, ""
 
 
@@ -80,30 +83,556 @@ def _c01(reg, tier):
     hs += ["c01::splitmix64::step64_uf", "c01::splitmix64::step32_uf", "c01::splitmix64::seed"]
     confirm["c01::splitmix64::step64_uf"] = "c01::splitmix64::step64_real"
     confirm["c01::splitmix64::step32_uf"] = "c01::splitmix64::step32_real"
-    return [Group("c01", hs, jobs=16, timeout=600, confirm=confirm,
-                  stubs=["u64::wrapping_mul / u32::wrapping_mul as uninterpreted functions (Ackermann-consistent recording stub) in the SplitMix64 and xoroshiro64*/** step harnesses; applies to implementation and model alike"])]
+    return [Group("c01", hs, jobs=16, timeout=600, confirm=confirm, stubs=[UF_STUB])]
 
+
+UF_STUB = "u64::wrapping_mul / u32::wrapping_mul replaced by a recording stub = uninterpreted function with Ackermann consistency (large-constant multiplications; applies to implementation and model alike; stub-free twins confirm failures)"
+GEN_STUB = "<Core as BlockRngCore>::generate replaced by a recording stub returning arbitrary words (block contents are C02/C03's subject)"
 
 PROPS = {}
 NOT_APPLICABLE = {}
+
+
+def both(f):
+    return dict(quick=lambda reg: f("quick"), thorough=lambda reg: f("thorough"))
+
 
 PROPS["C01"] = dict(
     level="proof",
     level_text="Bounded-model-checking proof (UNSAT from CBMC over the compiled code, unwinding assertions on) of one inductive step from every state and of from_seed decoding for every non-zero seed, for each of the 15 generators, against reference models transcribed from the published C sources; induction over steps (outside the solver) extends it to every stream position. Right level: the state space is 2^64..2^512 and the step is loop-free word arithmetic, the solver's home ground.",
     level_note="Trusted: Kani/CBMC/CaDiCaL, the reference models (self-tested against the published vectors at every run), the induction argument. SplitMix64's and xoroshiro64's large-constant multiplications are compared as an uninterpreted function in the quick tier (sound for equality; real-multiplier twins confirm failures and run in the thorough tier where they finish).",
-    tiers=dict(quick=lambda reg: _c01(reg, "quick"), thorough=lambda reg: _c01(reg, "thorough")),
+    tiers=both(lambda t: _c01(None, t)),
     explanation="Bounded model checking of the compiled code, one inductive step per generator from a fully symbolic state (all 2^64..2^512 states at once): real next_* vs the Blackman-Vigna reference model (output word and successor state), plus from_seed decoding for every non-zero seed. By induction over steps this covers every seed and every stream position.",
     bounds="no bound on state/seed values (full width); one step per query; loops in from_seed unwound to 66 with unwinding assertions",
     assumptions=["seed not all-zero for the 14 linear generators (C08 owns the zero seed)"],
+)
+
+# ----------------------------------------------------------------------- C02
+def _c02(tier):
+    gs = [Group("c02_shape", ["c02::generate_seq", "c02::sixteen_seq", "c02::step_p", "c02::step_q"], jobs=4, timeout=1200, mem_gb=16,
+                native_replay=False,
+                stubs=["Hc128Core::step_p / step_q replaced by recording stubs (indices logged, arbitrary return word) in generate_seq and sixteen_seq; the steps have their own stub-free harnesses"])]
+    if tier == "thorough":
+        gs.append(Group("c02_expand", ["c02::expand"], jobs=1, timeout=3000, mem_gb=44, native_replay=False,
+                        stubs=["u32::wrapping_add replaced by a checking stub that returns a fresh arbitrary value (UF-cut of the expansion recurrence)", "Hc128Core::sixteen_steps replaced by a counting stub inside init"]))
+    return gs
+
+
+PROPS["C02"] = dict(
+    level="proof",
+    level_text="Decomposed bounded-model-checking proof over all table contents, indices and counters: step_p/step_q equal Wu's P/Q step for every 4 KiB table and every five in-range indices; generate() and sixteen_steps() issue exactly the 16 specification steps (phase, index tuples mod 512, order, result placement, counter) for every block counter over the whole usize range; (thorough) the key/IV expansion stores Wu's W recurrence for every seed. Composition into 'every key, IV and position' is an induction written in DESIGN.md.",
+    level_note="Trusted: Kani/CBMC/CaDiCaL; the HC-128 reference model (self-tested on Wu's three vectors); the composition argument. A monolithic seed-to-keystream query is out of reach (initialisation alone is 2288 dependent steps over a 4 KiB table); the hand-out order of the 16 buffered words is C05.",
+    tiers=both(_c02),
+    explanation="Solver obligations over the real code: (1) step_p/step_q vs Wu's step for ALL tables and index tuples incl. frame; (2) generate(): call shape for ALL counters (multiples of 16 over the full usize range) with the steps stubbed; (3) sixteen_steps(): same for the 64 initialisation blocks incl. table write-back; (4, thorough) init(): operands of every addition of the expansion are those of Wu's recurrence for ALL seeds, final table = W[256..1280], exactly 64 warm-up blocks from counter 0.",
+    bounds="no bound on table contents, indices (< 512), counters; one block per query; expansion: all 1264 steps unrolled",
+    assumptions=["counter1024 is a multiple of 16 (invariant established by init and preserved by generate; asserted by the code itself)"],
 )
 
 PROPS["C04"] = dict(
     level="proof",
     level_text="Bounded-model-checking proof (UNSAT from CBMC over the compiled code) of one xor128 step from every non-zero 128-bit state and of from_seed decoding for every non-zero seed, against Marsaglia's published recurrence; induction over steps covers every position.",
     level_note="Trusted: Kani/CBMC/CaDiCaL, the xor128 reference model (self-tested against Marsaglia's default-seed outputs and rand's historical vector), the induction argument.",
-    tiers=dict(quick=lambda reg: [Group("c04", ["c04::step", "c04::seed"], jobs=2, timeout=300)],
-               thorough=lambda reg: [Group("c04", ["c04::step", "c04::seed"], jobs=2, timeout=300)]),
+    tiers=both(lambda t: [Group("c04", ["c04::step", "c04::seed"], jobs=2, timeout=300)]),
     explanation="Bounded model checking of the compiled code: one step of XorShiftRng::next_u32 from every non-zero state equals Marsaglia's xor128 step (result = new w, state = (y,z,w,w')), and from_seed decodes the four little-endian words verbatim for every non-zero seed; induction over steps gives every stream position.",
     bounds="no bound on state/seed values; one step per query",
     assumptions=["state/seed not all-zero (C08 owns the zero seed)"],
 )
+
+# ----------------------------------------------------------------------- C05
+def _hc_fill(tier):
+    if tier == "quick":
+        return ["c05_block::hc_fill::p%d_n%d" % (p, n) for p in (0, 13, 14, 15, 16) for n in (0, 1, 4, 5, 8, 9, 13)]
+    return ["c05_block::hc_fill::p%d_n%d" % (p, n) for p in range(17) for n in range(22)]
+
+
+def _isaac_fill(tier):
+    if tier == "quick":
+        return ["c05_block::isaac_fill::p%d_n%d" % (p, n) for p in (254, 255, 256) for n in (0, 5, 9)]
+    return ["c05_block::isaac_fill::p%d_n%d" % (p, n) for p in (0, 1, 2, 250, 251, 252, 253, 254, 255, 256) for n in (0, 1, 3, 4, 5, 7, 8, 9, 12, 13, 16, 17, 21)]
+
+
+def _isaac64_fill(tier):
+    if tier == "quick":
+        return ["c05_block::isaac64_fill::p%d_%s_n%d" % (p, h, n) for p in (255, 256) for h in ("w", "h") for n in (0, 9, 17)]
+    return ["c05_block::isaac64_fill::p%d_%s_n%d" % (p, h, n) for p in (0, 1, 2, 250, 251, 252, 253, 254, 255, 256) for h in ("w", "h") for n in (0, 1, 4, 7, 8, 9, 15, 16, 17, 25, 33, 41)]
+
+
+def _c05(tier):
+    direct = []
+    for m in XO_LIN + ["xorshift", "splitmix64"]:
+        direct += ["c05::%s::width" % m, "c05::%s::fill" % m]
+    blk = ["c05_block::hc::next", "c05_block::isaac::next"] + (["c05_block::isaac64::next"] if tier == "thorough" else ["c05_block::isaac64::next_end"])
+    return [Group("c05_direct", direct, jobs=16, timeout=900, mem_gb=12, stubs=[UF_STUB + " (SplitMix64 fill only)"]),
+            Group("c05_block", blk + _hc_fill(tier) + _isaac_fill(tier) + _isaac64_fill(tier), jobs=10, timeout=1800, mem_gb=16,
+                  native_replay=False, stubs=[GEN_STUB]),
+            Group("c05_jitter", ["jit::half::ops1", "jit::half::ops2", "jit::half::two_halves"] + (["jit::half::ops3"] if tier == "thorough" else []),
+                  jobs=4, timeout=900, mem_gb=12, native_replay=False,
+                  stubs=["JitterRng::gen_entropy replaced by a recording stub (one collection = one arbitrary 64-bit word); JitterRng's projections (low half, then high half of the same word; fill_bytes via next_u64/next_u32) are checked against that word stream"])]
+
+
+PROPS["C05"] = dict(
+    level="proof",
+    level_text="Bounded-model-checking proof of the inductive step 'from every configuration, one arbitrary operation consumes the next whole native words and projects them as documented, leaving the generator where the native-width twin is': per generator type for the direct generators (symbolic state, symbolic fill length n <= 24), and over the real BlockRng/BlockRng64 code with arbitrary block contents for the buffered ones (symbolic position for next_u32/next_u64 incl. fresh/straddling/half-used; enumerated concrete (position, length) instances for fill_bytes).",
+    level_note="Bounds: fill_bytes n <= 24 (direct), n <= 21 at every Hc128Rng position, ISAAC positions within 6 words of a block end or start (mid-block fill_bytes positions of ISAAC are outside the claim), n <= 41 for Isaac64Rng; longer buffers are outside the claim (the loop bodies are uniform in the iteration number). JitterRng's half rule is C16. Trusted: Kani/CBMC, the induction over operations.",
+    tiers=both(_c05),
+    explanation="Twin harnesses on the real code: generator g and twin t from the same symbolic state; g performs next_u32/next_u64/fill_bytes(n), t only native-width calls; asserted: documented projection byte for byte and equal final states. Buffered generators: real BlockRng code, generate() stubbed by a recording stub (arbitrary words), results compared against the recorded block stream, followed by one more native call that must return the word right after the consumed prefix.",
+    bounds="fill_bytes length: n <= 24 symbolic (direct generators); concrete instances (positions x lengths, listed in the harness names) for buffered generators",
+    assumptions=["BlockRng index is a reachable one (0..=len), set through the public generate_and_set or fresh"],
+)
+
+# ----------------------------------------------------------------------- C06 / C07
+def _c07_groups(tier):
+    hs = []
+    for m in XO_LIN + ["xorshift"]:
+        hs += ["c07::%s::lin" % m, "c07::%s::inj" % m]
+    return [Group("c07", hs, jobs=16, timeout=600)]
+
+
+def _c06_groups(tier):
+    types = XO_JUMP if tier == "thorough" else [m for m in XO_JUMP if "512" not in m]
+    hs = []
+    for m in types:
+        hs += ["c06::%s::jump" % m, "c06::%s::long_jump" % m]
+    lin = ["c07::%s::lin" % m for m in XO_JUMP]
+    return [Group("c06_shape", hs, jobs=16, timeout=1800, mem_gb=12, native_replay=False,
+                  stubs=["<T as RngCore>::next_u64 / next_u32 replaced inside jump() by a stub that overwrites the state with an arbitrary value and accumulates the pre-call state into a shadow accumulator under the derived polynomial J"]),
+            Group("c06_lin", lin, jobs=12, timeout=600)]
+
+
+def _c06_post(ctx):
+    import hybrid
+    thorough = ctx["tier"] == "thorough"
+    for (name, what), why in ctx.get("jump_problems", {}).items():
+        ctx["errors"].append("jump polynomial of %s::%s could not be derived: %s" % (name, what, why))
+    for name in XO_JUMP:
+        for what in ("jump", "long_jump"):
+            ok, d = hybrid.check_jump(name, what, thorough)
+            ctx["extra"]["samples"].append(dict(certificate="jump", **{k: str(v) if isinstance(v, int) and v > 2**53 else v for k, v in d.items()}))
+            ctx["extra"]["extra_obligations"] = ctx["extra"].get("extra_obligations", 0) + 1
+            if ok:
+                ctx["extra"]["extra_discharged"] = ctx["extra"].get("extra_discharged", 0) + 1
+            else:
+                rdir = _write_cert_replay(ctx, "C06", "%s_%s" % (name, what), d)
+                ctx["violations"].append(("certificate %s::%s" % (name, what), [dict(function="rand_xoshiro::%s::%s" % (name, what), description=d.get("reason", "jump certificate failed"), location={})], rdir, True))
+    ctx["extra"]["checker_extra"] = "exact GF(2) certificates: vlib/hybrid.py check_jump (polynomial route: J(x) == x^(2^k) mod charpoly; matrix route: real jump matrix == M^(2^k) by repeated squaring)"
+
+
+def _write_cert_replay(ctx, prop, name, d):
+    import json
+    rdir = os.path.join(VERIF, "work", "replays", prop, "cert_" + name)
+    os.makedirs(rdir, exist_ok=True)
+    json.dump(dict(property=prop, kind="certificate", detail={k: (str(v) if isinstance(v, int) else v) for k, v in d.items()},
+                   how_to_replay="/verif/check %s (matrices are re-extracted from the real build; the witness basis state and the real jump's image are in detail)" % prop),
+              open(os.path.join(rdir, "replay.json"), "w"), indent=1)
+    return rdir
+
+
+def _c07_post(ctx):
+    import hybrid
+    thorough = ctx["tier"] == "thorough"
+    for name in XO_LIN + ["xorshift"]:
+        ok, d = hybrid.check_period(name, thorough)
+        ctx["extra"]["samples"].append(dict(certificate="period", **d))
+        ctx["extra"]["extra_obligations"] = ctx["extra"].get("extra_obligations", 0) + 1
+        if ok:
+            ctx["extra"]["extra_discharged"] = ctx["extra"].get("extra_discharged", 0) + 1
+        else:
+            rdir = _write_cert_replay(ctx, "C07", name, d)
+            ctx["violations"].append(("certificate %s" % name, [dict(function="rand_xoshiro::%s step" % name, description=d.get("reason", "period certificate failed"), location={})], rdir, True))
+    ctx["extra"]["checker_extra"] = "exact GF(2) certificates: vlib/hybrid.py check_period (Berlekamp-Massey characteristic polynomial of the extracted matrix, primitivity test against the verified factorisation of 2^n-1; numpy matrix-power route)"
+
+
+HYBRID_TRUST = DEFAULT_TRUSTED + ["exact GF(2) routines in vlib/gf2.py (two independent routes that must agree)",
+                                  "prime factorisation of 2^n-1 (checked by multiplication, Miller-Rabin on 40 bases and sympy.isprime at run time)"]
+
+PROPS["C06"] = dict(
+    level="other",
+    level_text="Hybrid: the solver proves for ALL states (a) the one-step transition is GF(2)-linear (so it equals the bit matrix M extracted from the real build on basis states) and (b) jump()/long_jump() compute XOR_{i in J} T^i(s) for arbitrary visited states (next_* stubbed), with J derived from the real code; the remaining statement J(M) = M^(2^(n/2)) resp. M^(2^(3n/4)) has no quantifier over inputs and is checked by exact GF(2) algebra in two independent ways. Pure XOR networks of this depth are the one thing CDCL cannot decide, hence level 'other'.",
+    level_note="Solver-decided: linearity of the step and the shape of jump for all states (all 24 functions in the thorough tier; the 128- and 256-bit types in the quick tier). Exact algebra on constants: polynomial identity mod the characteristic polynomial and explicit matrix powers. Trusted: Kani/CBMC, gf2.py, numpy float64 matmul exactness for n <= 512.",
+    tiers=both(_c06_groups), post=_c06_post, trusted_base=HYBRID_TRUST,
+    explanation="(1) c07::<T>::lin: step(a^b) = step(a)^step(b) for all a,b => step = M (native basis images). (2) c06::<T>::jump/long_jump: with the generator's own next_* replaced by a stub writing arbitrary successor states v_i, jump() makes exactly n calls and ends in XOR_{i in J} v_i, for all s and all v_i => jump = J(T). (3) certificate: J(x) == x^(2^k) mod charpoly(M) and matrix(real jump) == M^(2^k).",
+    bounds="n = 128/256/512 loop iterations fully unrolled (unwinding assertions on); no bound on states",
+)
+
+PROPS["C07"] = dict(
+    level="other",
+    level_text="Hybrid: the solver proves for ALL states of each of the 15 linear generator types that the transition is GF(2)-linear and injective and fixes only the zero state; the period statement is then a statement about one concrete bit matrix M (extracted from the real build): its characteristic polynomial (Berlekamp-Massey, degree n) is primitive, i.e. M has order exactly 2^n-1, which makes the non-zero states one cycle. Exact algebra, two routes.",
+    level_note="Solver-decided for all states: linearity, injectivity, zero only from zero. Exact on constants: primitivity of the characteristic polynomial against the verified factorisation of 2^n-1 (polynomial route, all types every run) and explicit M^(2^n-1) = I, M^((2^n-1)/p) != I (matrix route; n <= 128 in the quick tier, all in the thorough tier).",
+    tiers=both(_c07_groups), post=_c07_post, trusted_base=HYBRID_TRUST,
+    explanation="c07::<T>::lin and ::inj (solver, all states) + period certificate per type: rank, minimal polynomial degree n, primitivity, order of M.",
+    bounds="none on states; certificates are exact",
+)
+
+# ----------------------------------------------------------------------- C08 / C09
+def _c08(tier):
+    hs = []
+    for m in XO_LIN:
+        hs += ["c08::%s::from_seed" % m, "c08::%s::u64_nonzero" % m, "c08::%s::from_rng" % m, "c08::%s::try_from_rng" % m]
+    hs += ["c08::xorshift::from_seed", "c08::xorshift::u64_route_uf", "c08::xorshift::from_rng", "c08::xorshift::try_from_rng"]
+    return [Group("c08", hs, jobs=16, timeout=900, mem_gb=12, stubs=[UF_STUB + " (XorShiftRng PCG32 route only)"],
+                  confirm={"c08::xorshift::u64_route_uf": "c08::xorshift::u64_route_real"})]
+
+
+PROPS["C08"] = dict(
+    level="proof",
+    level_text="Bounded-model-checking proof, per linear generator type and through the public constructors only, for ALL seeds / u64 arguments / source byte streams: the state is never all-zero; non-zero seeds are used verbatim (little-endian words, hence injective); the zero seed gives seed_from_u64(0) (xoshiro family) resp. four words 0x0BAD5EED (XorShiftRng); an all-zero block from a source is remapped (xoshiro) or redrawn (XorShiftRng).",
+    level_note="Bound: XorShiftRng's redraw loop is explored for at most 4 leading all-zero blocks. seed_from_u64 != 0 uses the real SplitMix64 multiplier (unit propagation from the LSB). Trusted: Kani/CBMC.",
+    tiers=both(_c08),
+    explanation="Harnesses c08::<T>::{from_seed,u64_nonzero,from_rng,try_from_rng} over the real constructors with symbolic seed bytes, symbolic u64, and a harness source RNG whose every byte is symbolic (and which can be forced to deliver leading all-zero blocks).",
+    bounds="XorShiftRng redraws: at most 4 leading all-zero blocks; everything else unbounded (full-width symbolic)",
+)
+
+
+def _c09(tier):
+    hs = []
+    confirm = {}
+    for m in XO_LIN:
+        hs += ["c08::%s::u64_route_uf" % m, "c08::%s::from_rng" % m, "c08::%s::try_from_rng" % m]
+        confirm["c08::%s::u64_route_uf" % m] = "c08::%s::u64_route_real" % m
+    hs += ["c08::xorshift::u64_route_uf", "c08::xorshift::from_rng", "c08::xorshift::try_from_rng"]
+    confirm["c08::xorshift::u64_route_uf"] = "c08::xorshift::u64_route_real"
+    return [Group("c09", hs, jobs=16, timeout=900, mem_gb=12, confirm=confirm, native_replay=False,
+                  stubs=[UF_STUB, "<T as SeedableRng>::from_seed replaced by a recording stub in the u64-route harnesses (its behaviour is C08's from_seed harness)"])]
+
+
+# ----------------------------------------------------------------------- JitterRng: C12..C16
+JIT_STUBS = ["JitterRng::memaccess and JitterRng::lfsr_time replaced by recording stubs in the measure/collect/test_timer harnesses: they consume exactly one timer reading when var_rounds (proved of the real functions by jit::mem::index and jit::lfsr::fold_var / loop_cnt) and havoc what the callee may write (pool resp. mem_prev_index)",
+             "JitterRng::stir_pool replaced by a recording stub in the collection harness (its behaviour: jit::stir::model)",
+             "timer = harness fn returning kani::any() for every reading"]
+
+
+def _c12(tier):
+    hs = ["jit::lfsr::fold_fixed", "jit::lfsr::loop_cnt", "jit::mem::index", "jit::stir::model", "jit::measure::one",
+          "jit::collect::s2", "jit::collect::timer_stats"]
+    if tier == "thorough":
+        hs += ["jit::lfsr::fold_var", "jit::collect::s4"]
+    return [Group("c12", hs, jobs=10, timeout=1500, mem_gb=16, native_replay=False, stubs=JIT_STUBS)]
+
+
+PROPS["C12"] = dict(
+    level="proof",
+    level_text="Decomposed bounded-model-checking proof over all timer readings: the LFSR fold equals the documented bit-serial LFSR for every (pool, time); the stir equals its documented branching form; the memory-access source only moves its index; one measurement (order of the three readings, 32-bit delta sign-extended into the fold, stuck test, rotate-by-7 iff accepted, collector update) from every collector state; one collection (priming measurement, retries until `rounds` accepted, single stir, result = pool, 1 + 3 x measurements readings).",
+    level_note="Bounds: rounds <= 3 and at most 2 (quick) / 4 (thorough) stuck measurements per collection; the loop bodies are uniform in the round number, rounds up to 255 are outside the solver claim. next_u32/fill_bytes on top of a collection are C16/C05. JitterRng::new() (OS clock, std feature) is not encoded. Trusted: Kani/CBMC, the reference model of the documented procedure, the stub contracts (each proved by its own stub-free harness).",
+    tiers=both(_c12),
+    explanation="Harnesses jit::lfsr::*, jit::stir::model, jit::mem::index (stub-free, callees vs model for all inputs) and jit::measure::one, jit::collect::s2/s4, jit::collect::timer_stats (callers with the noise sources stubbed, all readings symbolic, on-line model of the stuck test inside the stub).",
+    bounds="rounds <= 3; stuck measurements per collection <= 2 (quick) / 4 (thorough); LFSR 64 rounds and up to 15 throw-away folds fully unrolled",
+    assumptions=["mem_prev_index < 2048 (established by new_with_timer and preserved by memaccess: jit::mem::index)"],
+)
+
+
+def _c13(tier):
+    return [Group("c13", ["jit::tt::all_readings"], jobs=1, timeout=3400, mem_gb=40, native_replay=False, stubs=JIT_STUBS)]
+
+
+PROPS["C13"] = dict(
+    level="proof",
+    level_text="Bounded-model-checking proof over ALL 1601 timer readings of the real test_timer (noise sources stubbed to their reading-consumption contract): Ok(r) only if no documented failure condition holds and 1 <= r <= 128 and r * bitlen(mean) >= 128; every Err names a condition that holds on the readings consumed. The conditions are evaluated by an on-line model fed by the timer itself.",
+    level_note="All 400 probes unrolled, every reading a free 64-bit variable. Trusted: Kani/CBMC, the on-line model of the documented conditions in jit::tt.",
+    tiers=both(_c13),
+    explanation="jit::tt::all_readings: real test_timer with a fully symbolic timer; verdict checked against the model's accumulators (zero reading, zero delta, backwards count, mod-100 count, stuck count, summed absolute delta variation).",
+    bounds="none on readings; loop of 400 probes fully unrolled (unwind 402)",
+)
+
+
+def _c15(tier):
+    hs = ["jit::lfsr::inj_pool", "jit::lfsr::inj_time", "jit::measure::one"] + ["jit::stir_flip::b%d" % i for i in range(64)]
+    return [Group("c15", hs, jobs=16, timeout=900, mem_gb=12, native_replay=False, stubs=JIT_STUBS[:1])]
+
+
+def _c15_post(ctx):
+    import gf2
+    rc, out = native(["stirbasis"])
+    vals = [int(x, 16) for x in out.split()]
+    if rc != 0 or len(vals) != 65:
+        ctx["errors"].append("native stirbasis failed")
+        return
+    ks = [v ^ vals[0] for v in vals[1:]]
+    rk = gf2.rank(ks, 64)
+    # second route: numpy determinant-free rank via elimination over GF(2)
+    import numpy as np
+    a = gf2.to_np(ks, 64)
+    m = a.copy() % 2
+    r2 = 0
+    for c in range(64):
+        piv = None
+        for r in range(r2, 64):
+            if m[r, c] == 1:
+                piv = r
+                break
+        if piv is None:
+            continue
+        m[[r2, piv]] = m[[piv, r2]]
+        for r in range(64):
+            if r != r2 and m[r, c] == 1:
+                m[r] = (m[r] + m[r2]) % 2
+        r2 += 1
+    ctx["extra"]["extra_obligations"] = 1
+    ctx["extra"]["samples"].append(dict(certificate="stir rank", K_0=hex(ks[0]), K_63=hex(ks[63]), rank_route_int=rk, rank_route_numpy=int(r2)))
+    ctx["extra"]["checker_extra"] = "exact rank over GF(2) of the 64 flip constants K_i = stir(e_i)^stir(0) taken from the real build (two routes)"
+    if rk == 64 and r2 == 64:
+        ctx["extra"]["extra_discharged"] = 1
+    else:
+        d = dict(reason="the linear part of stir_pool has rank %d < 64: two pools are merged" % rk, K=[hex(k) for k in ks])
+        rdir = _write_cert_replay(ctx, "C15", "stir_rank", d)
+        ctx["violations"].append(("certificate stir rank", [dict(function="rand_jitter::JitterRng::stir_pool", description=d["reason"], location={})], rdir, True))
+
+
+PROPS["C15"] = dict(
+    level="other",
+    level_text="Solver: the LFSR fold is injective in the pool for every time value and injective in the time value for every pool value (two-copy miters over the real lfsr_time, all 2^128 pairs); the accepted path rotates the pool by exactly 7 (a permutation); stir is affine: 64 single-bit-flip identities stir(a ^ e_i) ^ stir(a) = K_i for every pool a. Exact: the 64 constants K_i (from the real build) have GF(2) rank 64, so the affine map is one-to-one. A direct injectivity query for stir does not terminate in any back end (parity), hence level 'other' for that part.",
+    level_note="Trusted: Kani/CBMC; induction over the bits of b turning the 64 flip identities into affinity; exact rank computation (two routes).",
+    tiers=both(_c15), post=_c15_post, trusted_base=HYBRID_TRUST[:-1],
+    explanation="jit::lfsr::inj_pool, inj_time, jit::measure::one (rotate_left(7) on the accepted path), jit::stir_flip::b0..b63, rank certificate.",
+    bounds="none (all 64-bit values); LFSR loop of 64 rounds unrolled",
+)
+
+
+def _c16(tier):
+    hs = ["jit::half::ops1", "jit::half::ops2", "jit::half::two_halves"] + (["jit::half::ops3"] if tier == "thorough" else [])
+    return [Group("c16", hs, jobs=4, timeout=900, mem_gb=12, native_replay=False,
+                  stubs=["JitterRng::gen_entropy replaced by a recording stub (stores and returns an arbitrary 64-bit value, counts collections); that the real one reads the timer >= rounds times is C12's jit::collect"])]
+
+
+PROPS["C16"] = dict(
+    level="proof",
+    level_text="Bounded-model-checking proof of the half-word debt discipline as an inductive step: from an ARBITRARY (pool, half flag, rounds) configuration, every operation (next_u32, next_u64, fill_bytes(n <= 9), clone-and-continue) behaves as the ghost model says (a pending half is handed out exactly once and only by a next_u32 - directly or as the 1..4-byte tail of fill_bytes, which per C05 is a next_u32; every other output call collects afresh; a clone owes nothing), for histories of 1, 2 (quick) and 3 (thorough) operations.",
+    level_note="Reading of the statement: fill_bytes is its documented decomposition into next_u64/next_u32 calls (C05), so a 1..4-byte fill with a pending half hands out that half (each collected value is still handed out at most once). Bound: histories <= 3 ops from an arbitrary configuration (the configuration space is exactly (pool, flag), so one step is already inductive). Trusted: Kani/CBMC; the gen_entropy stub contract.",
+    tiers=both(_c16),
+    explanation="jit::half::ops1/2/3 (ghost model vs real RngCore impl and Clone with gen_entropy stubbed) and jit::half::two_halves (the statement's explicit instance).",
+    bounds="histories of <= 2 (quick) / 3 (thorough) operations from an arbitrary configuration; fill_bytes n <= 9; rounds 1..=255 symbolic",
+)
+
+
+# ----------------------------------------------------------------------- C09 (complete), C10, C11, C17, C19
+HC_FS_STUB = "<Hc128Core as SeedableRng>::from_seed replaced by a recording stub in the Hc128Rng seeding-route harnesses (HC-128 initialisation itself is C02)"
+
+
+def _c09_full(tier):
+    gs = _c09(tier)
+    hc = ["hc::u64_route_uf", "hc::from_rng", "hc::try_from_rng", "hc::from_seed_wrapper", "hc::core_from_seed_decode"]
+    gs.append(Group("c09_hc", hc, jobs=5, timeout=900, mem_gb=12, native_replay=False,
+                    confirm={"hc::u64_route_uf": "hc::u64_route_real"}, stubs=[HC_FS_STUB, UF_STUB, "Hc128Core::init replaced by a recording stub in core_from_seed_decode"]))
+    isaac = ["c03::seed32::from_seed", "c03::seed32::seed_from_u64", "c03::seed32::from_rng", "c03::seed32::try_from_rng",
+             "c03::seed64::from_seed", "c03::seed64::seed_from_u64", "c03::seed64::from_rng", "c03::seed64::try_from_rng"]
+    gs.append(Group("c09_isaac", isaac, jobs=8, timeout=1800, mem_gb=16, native_replay=False, stubs=[ISAAC_INIT_STUB]))
+    if tier == "thorough":
+        gs.append(Group("c09_isaac_init", ["c03::init32::two_pass", "c03::init32::one_pass", "c03::init64::two_pass", "c03::init64::one_pass"],
+                        jobs=4, timeout=3000, mem_gb=24, native_replay=False, stubs=[ISAAC_CUT_STUB]))
+    return gs
+
+
+ISAAC_INIT_STUB = "IsaacCore::init / Isaac64Core::init replaced by a recording stub (key array and number of passes logged) in the ISAAC seeding-route harnesses; init itself vs randinit() has its own harnesses (c03::init32/init64)"
+ISAAC_CUT_STUB = "u32/u64::wrapping_add (and wrapping_sub) replaced by a checking stub returning a fresh arbitrary value per call (UF-cut), see harness/src/c03.rs"
+
+PROPS["C09"] = dict(
+    level="proof",
+    level_text="Bounded-model-checking proofs, per generator type, that seed_from_u64(x) is from_seed of the documented expansion of x for every u64 (SplitMix64 stream for the xoshiro family; rand_core's PCG32 for XorShiftRng and Hc128Rng; key words + one pass for ISAAC), that from_rng builds the generator from exactly the bytes one fill_bytes call delivers and advances the source by exactly that much (1024/2048 bytes and two passes for ISAAC; redraws on zero blocks for XorShiftRng), and that try_from_rng equals from_rng for a working source and returns the source's own error, never a generator, for every position at which a fallible source starts failing.",
+    level_note="from_seed is replaced by a recording stub where the route under test ends in it (its own behaviour is proved in C01/C08/C02); large-constant multiplications of the expansions are compared as uninterpreted functions (stub-free twins confirm failures). Bound: XorShiftRng redraws <= 4. Trusted: Kani/CBMC, the expansion reference models (PCG32 self-tested against rand_core's own value-breakage vector).",
+    tiers=both(_c09_full),
+    explanation="c08::<T>::{u64_route_uf,from_rng,try_from_rng} (14 xoshiro types, XorShiftRng), hc::{u64_route_uf,from_rng,try_from_rng,from_seed_wrapper,core_from_seed_decode}, c03::seed32/seed64::{from_seed,seed_from_u64,from_rng,try_from_rng} (+ thorough: init vs randinit).",
+    bounds="XorShiftRng: at most 4 leading zero blocks; otherwise none",
+)
+
+
+def _c10(tier):
+    hs = []
+    for m in XO_ALL + ["xorshift"]:
+        hs += ["c10::%s::clone_op" % m, "c10::%s::eq_fields" % m]
+    hs += ["c10::jump_xoroshiro128plus::clone_jump", "c10::jump_xoshiro128plusplus::clone_jump"]
+    hc = ["hc::core_eq_fields", "hc::core_clone", "hc::rng_eq_index", "hc::rng_clone"]
+    isaac = ["c03::cl32::core_eq_fields", "c03::cl32::clone", "c03::cl64::core_eq_fields", "c03::cl64::clone"]
+    if tier == "thorough":
+        hc.append("hc::buffer_is_function_of_core")
+    return [Group("c10", hs, jobs=16, timeout=900, mem_gb=12, native_replay=False, stubs=[UF_STUB]),
+            Group("c10_hc", hc + isaac, jobs=8, timeout=1800, mem_gb=16, native_replay=False, stubs=[GEN_STUB])]
+
+
+PROPS["C10"] = dict(
+    level="proof",
+    level_text="Bounded-model-checking proofs from every state: clone() yields a generator with identical fields that compares equal (where == exists) and returns the same values under next_u32, next_u64, fill_bytes (and jump for the 128-bit types); for two ARBITRARY generators == holds exactly when all fields are equal (the direction a dropped field breaks); for Hc128Rng == is (core, index), generators at different read positions of one block are unequal, and the buffer that == ignores is a function of the post-refill core (thorough). With determinism of every operation as a function of the fields (C19), field equality is inductive, which gives 'identical futures' for all continuations.",
+    level_note="IsaacRng/Isaac64Rng offer no ==; their cores' == and the wrappers' clone are covered. jump on a clone is checked for two representative 128-bit types (the macro body is shared). Trusted: Kani/CBMC, the induction over operations.",
+    tiers=both(_c10),
+    explanation="c10::<T>::{clone_op,eq_fields} for 17 direct types, c10::jump_*::clone_jump, hc::{core_eq_fields,core_clone,rng_eq_index,rng_clone,buffer_is_function_of_core}, c03::cl32/cl64::{core_eq_fields,clone}.",
+    bounds="one operation after clone per query; buffered generators: every read position (symbolic)",
+)
+
+
+def _c11(tier):
+    hs = ["c11::%s::roundtrip" % m for m in XO_ALL + ["xorshift"]] + ["c11::isaac::roundtrip", "c11::isaac64::roundtrip"]
+    return [Group("c11", hs, jobs=12, timeout=2400, mem_gb=24, features=("serde",), native_replay=False, stubs=[GEN_STUB])]
+
+
+PROPS["C11"] = dict(
+    level="proof",
+    level_text="Bounded-model-checking proof over the REAL derive-generated Serialize/Deserialize code (and rand_isaac's isaac_array_serde, rand_core's BlockRng/BlockRng64 derives), run through a heap-free positional serde format written in the harness: from every state (ISAAC: every core, every buffered block, every read position, half-used or not) serialize, deserialize, and compare every field, ==, and the next reads; serializing leaves the original untouched.",
+    level_note="Claim is for positional binary formats (the shape of bincode's fixint encoding): bincode's own encoder/decoder (heap Vec, io::Write) is outside the five crates and not symbolically executed. The future of the restored generator follows from field equality by C10/C19. Trusted: Kani/CBMC; the tape format in harness/src/tape.rs.",
+    tiers=both(_c11),
+    explanation="c11::<T>::roundtrip for the 15 rand_xoshiro types, XorShiftRng, IsaacRng, Isaac64Rng (harness crate built with --features serde).",
+    bounds="none on states; ISAAC read position symbolic over the whole block",
+)
+
+
+def _c17(tier):
+    hs = ["c17::xorshift_plain", "c17::xorshift_alt", "c17::hc_core_plain", "c17::hc_core_alt", "c17::hc_rng_plain",
+          "c17::jitter_plain", "c17::jitter_alt", "c17::isaac_core_plain", "c17::isaac_core_alt", "c17::isaac_rng_plain",
+          "c17::isaac64_core_plain", "c17::isaac64_core_alt", "c17::isaac64_rng_plain",
+          "c17::hc_rng_alt::h", "c17::isaac_rng_alt::h", "c17::isaac64_rng_alt::h"]
+    return [Group("c17", hs, jobs=16, timeout=1500, mem_gb=16, native_replay=False,
+                  stubs=["<Core as Debug>::fmt replaced by a fixed-token stub in the three {:#?} wrapper harnesses (the core's own pretty form has its own harness); formatting itself is NOT stubbed: it is the subject"])]
+
+
+PROPS["C17"] = dict(
+    level="proof",
+    level_text="Bounded-model-checking proof: for two ARBITRARY states of each state-hiding type at the same public read position, the real Debug::fmt, run through core::fmt::write into a heap-free sink, produces the same text ({:?} and {:#?}); so no seed, state or buffered word can reach the output.",
+    level_note="The pretty form of the three BlockRng wrapper types is decided compositionally (core's fmt stubbed to a token; the wrapper passes only result_len and index besides the core). States are arbitrary in the words Debug could read (a symbolic table position, counters, a/b/c, pool); a Debug impl that printed a fixed other word would need that word made symbolic - the harness makes one symbolic position of each table symbolic. Trusted: Kani/CBMC.",
+    tiers=both(_c17),
+    explanation="c17::* : two-state comparisons of the formatted text at a symbolic byte position plus equal length, for XorShiftRng, Hc128Core, Hc128Rng, IsaacCore, IsaacRng, Isaac64Core, Isaac64Rng, JitterRng.",
+    bounds="sink of 160 bytes (overflow asserted impossible)",
+)
+
+
+def _c19(tier):
+    hs = ["c19::send_sync", "c19::seeding::interleaved_constructors"] + ["c19::%s::nonint" % m for m in XO_ALL + ["xorshift"]]
+    return [Group("c19", hs, jobs=16, timeout=1200, mem_gb=12, native_replay=False, stubs=[UF_STUB])]
+
+
+def _static_audit(ctx):
+    """No static / thread_local / interior-mutability item in the five crates'
+    default build (text audit of the sources as compiled; regenerated per run)."""
+    import re, glob
+    hits = []
+    for f in sorted(glob.glob("/repo/rand_*/src/**/*.rs", recursive=True)):
+        src = open(f).read()
+        # strip the cfg(rngs_verif) hook blocks and test modules? keep it simple: scan all lines
+        for ln, line in enumerate(src.split("\n"), 1):
+            code = line.split("//")[0]
+            if re.search(r"\bstatic\s+(mut\s+)?[A-Z_]+\s*:", code) or "thread_local!" in code or re.search(r"\b(Cell|RefCell|OnceCell|OnceLock|LazyLock|Mutex|RwLock)\s*<", code) or re.search(r"\bAtomic[A-Z]\w*::new", code):
+                hits.append((f, ln, line.strip()))
+    allowed = [h for h in hits if "rand_jitter/src/lib.rs" in h[0] and "JITTER_ROUNDS" in h[2]]
+    other = [h for h in hits if h not in allowed]
+    ctx["extra"]["samples"].append(dict(static_audit=dict(allowed=[list(map(str, h)) for h in allowed], unexpected=[list(map(str, h)) for h in other])))
+    ctx["extra"]["extra_obligations"] = ctx["extra"].get("extra_obligations", 0) + 1
+    if other:
+        d = dict(reason="shared mutable state item in a generator crate: %s:%s %s" % other[0], items=[list(map(str, h)) for h in other])
+        rdir = _write_cert_replay(ctx, "C19", "static_audit", d)
+        ctx["violations"].append(("static audit", [dict(function=other[0][0], description=d["reason"], location=dict(file=other[0][0], line=str(other[0][1])))], rdir, True))
+    else:
+        ctx["extra"]["extra_discharged"] = ctx["extra"].get("extra_discharged", 0) + 1
+
+
+PROPS["C19"] = dict(
+    level="other",
+    level_text="Reduction, not exploration of schedules: Kani does not model threads. The solver decides the sequential core - for two arbitrary instances (same type, and one of another crate) the values an instance returns and its final state are the same whether or not construction / operations / clones of other instances are interleaved, and vice versa; hidden statics or thread-locals would be ordinary shared memory to CBMC and make the two variants differ. The threaded statement then follows from Rust's aliasing rules (&mut self, no interior mutability, no static): checked by a per-run source audit for static/thread_local/Cell/Atomic items and compile-time Send + Sync obligations for every type.",
+    level_note="Thread interleavings are reduced, not explored. The audit allows exactly one static (JITTER_ROUNDS, std feature, used by JitterRng::new() only, outside the default build). Trusted: Kani/CBMC, rustc's Send/Sync and borrow checking.",
+    tiers=both(_c19), post=_static_audit,
+    explanation="c19::<T>::nonint for 17 direct types, c19::seeding::interleaved_constructors, c19::send_sync, static audit.",
+    bounds="two instances of the type under test plus one of another crate; a scripted operation sequence (next_u64, next_u32, fill_bytes(5)) twice",
+)
+
+
+# ----------------------------------------------------------------------- C03
+def _c03(tier):
+    gs = [Group("c03_gen", ["c03::gen32::generate", "c03::gen64::generate"], jobs=2, timeout=3000, mem_gb=24, native_replay=False, stubs=[ISAAC_CUT_STUB]),
+          Group("c03_seed", ["c03::seed32::from_seed", "c03::seed32::seed_from_u64", "c03::seed64::from_seed", "c03::seed64::seed_from_u64",
+                             "c03::init32::one_pass", "c03::init64::one_pass", "c05_block::isaac::next", "c05_block::isaac64::next"],
+                jobs=8, timeout=3000, mem_gb=24, native_replay=False, stubs=[ISAAC_INIT_STUB, ISAAC_CUT_STUB, GEN_STUB])]
+    if tier == "thorough":
+        gs.append(Group("c03_init2", ["c03::init32::two_pass", "c03::init64::two_pass"], jobs=2, timeout=3400, mem_gb=24, native_replay=False, stubs=[ISAAC_CUT_STUB]))
+    return gs
+
+
+PROPS["C03"] = dict(
+    level="proof",
+    level_text="Decomposed bounded-model-checking proof over all memories and seeds: (1) one refill (generate) from EVERY (mm[256], aa, bb, cc) is Jenkins' isaac()/isaac64() - decided with a 'UF-cut': wrapping_add is replaced by a stub that returns a fresh arbitrary value per call and checks on the fly, for every value earlier calls may have returned, that the operands are exactly those of Jenkins' step (incl. the two data-dependent reads per step), final memory/aa/bb/cc/results (in reversed hand-out order) compared with the stub's shadow state; (2) init vs randinit(): the same cut on the 24 additions/subtractions per 8-word block, starting from the golden ratio mixed four times; (3) from_seed / seed_from_u64 pass the documented key layout and pass count to init; (4) the 256-word block is handed out in index order by BlockRng (C05). Composition by induction (DESIGN.md).",
+    level_note="A lock-step miter of generate against a second copy never finished in any formulation (six measured, DESIGN section 10); the UF-cut is sound because the real addition is one admissible choice of the stub's return values. Quick tier: refill, one-pass init, key layout; thorough adds the two-pass init over an arbitrary 256-word key. Trusted: Kani/CBMC, the reference transcription in the stub (same shifts/indices as ref_isaac.rs, which is self-tested on Jenkins' vectors), the induction over calls.",
+    tiers=both(_c03),
+    explanation="c03::gen32/gen64::generate, c03::init32/init64::{one_pass,two_pass}, c03::seed32/seed64::{from_seed,seed_from_u64}, c05_block::isaac/isaac64::next.",
+    bounds="none on memory/seed contents; one block (256 steps, 1026 additions) per query; init: 768 resp. 1536 additions per query",
+)
+
+
+# ----------------------------------------------------------------------- C14, C18
+def _c14(tier):
+    xo = []
+    for m in XO_LIN + ["xorshift", "splitmix64"]:
+        xo += ["c05::%s::fill" % m]
+    for m in XO_LIN:
+        xo += ["c08::%s::from_seed" % m, "c08::%s::u64_nonzero" % m, "c08::%s::from_rng" % m, "c08::%s::try_from_rng" % m]
+    xo += ["c08::xorshift::from_seed", "c08::xorshift::from_rng", "c08::xorshift::try_from_rng", "c04::step", "c01::splitmix64::seed"]
+    if tier == "thorough":
+        for m in XO_JUMP:
+            xo += ["c06::%s::jump" % m, "c06::%s::long_jump" % m]
+    blk = ["c02::generate_seq", "c02::sixteen_seq", "c02::step_p", "c02::step_q", "c05_block::hc::next", "c05_block::hc_fill::p15_n9", "c05_block::hc_fill::p16_n0",
+           "c05_block::isaac::next", "c05_block::isaac_fill::p255_n9", "c05_block::isaac64_fill::p255_h_n9", "hc::core_from_seed_decode",
+           "c03::seed32::from_rng", "c03::seed64::from_rng", "c03::gen32::generate", "c03::gen64::generate", "c03::init32::one_pass", "c03::init64::one_pass"]
+    if tier == "thorough":
+        blk += ["c05_block::isaac64::next", "c03::init32::two_pass", "c03::init64::two_pass", "c02::expand"]
+    jit = ["jit::measure::one", "jit::collect::s2", "jit::collect::timer_stats", "jit::mem::index", "jit::lfsr::loop_cnt", "jit::lfsr::fold_fixed",
+           "jit::misc::set_rounds", "jit::half::ops2", "jit::stir::model", "jit::tt::all_readings"]
+    if tier == "thorough":
+        jit += ["jit::lfsr::fold_var", "jit::collect::s4", "jit::half::ops3"]
+    return [Group("c14_xo", xo, jobs=16, timeout=1800, mem_gb=12, stubs=[UF_STUB]),
+            Group("c14_blk", blk, jobs=12, timeout=3000, mem_gb=24, native_replay=False, stubs=[GEN_STUB, ISAAC_CUT_STUB]),
+            Group("c14_jit", jit, jobs=10, timeout=3400, mem_gb=40, native_replay=False, stubs=JIT_STUBS)]
+
+
+PROPS["C14"] = dict(
+    level="proof",
+    repo_checks_only=True,
+    level_text="Kani instruments every arithmetic overflow (dev-profile semantics), array bound, slice split, unwrap/expect, assert! and unreachable! of the code it executes; C14 is the conjunction of those built-in checks - restricted to locations inside the five crates and rand_core - over harnesses that between them call every public operation from an arbitrary configuration: all constructors with symbolic seeds/u64/source streams, next_u32/next_u64/fill_bytes (incl. length 0) from symbolic states and buffer positions, jump/long_jump, HC-128 generate for every counter of the whole usize range (the three index assert!s), ISAAC generate/init for every memory, the unsafe byte view in ISAAC's from_rng, and for JitterRng measure_jitter/gen_entropy/test_timer/timer_stats/memaccess/random_loop_cnt/set_rounds over ALL timer readings.",
+    level_note="Only checks located in /repo or its dependencies count here (functional assertions of the harnesses belong to the other properties). JitterRng's stuck-retry loop is bounded as in C12 (non-termination while the timer stays stuck is allowed by the property). JitterRng::new() (std feature, OS clock) is not encoded. Trusted: Kani's instrumentation, CBMC.",
+    tiers=both(_c14),
+    explanation="Built-in checks of Kani over the union of the harnesses listed; failing checks are attributed by source location.",
+    bounds="as in the harnesses' own properties (fill_bytes n <= 24, XorShiftRng redraws <= 4, JitterRng rounds <= 3 / stuck <= 2 or 4)",
+)
+
+
+def _c18_set():
+    hs = []
+    for m in XO_LIN:
+        hs.append("c01::%s::step" % m if not m.startswith("xoroshiro64") else "c01::%s_uf::step_uf" % m)
+    hs += ["c01::splitmix64::step64_uf", "c01::splitmix64::step32_uf", "c04::step", "c05::xoshiro256plusplus::fill", "c05::xorshift::fill",
+           "c02::generate_seq", "c05_block::hc::next", "c05_block::isaac::next", "jit::measure::one", "jit::collect::s2"]
+    return hs
+
+
+def _c18(tier):
+    hs = _c18_set()
+    if tier == "thorough":
+        hs = hs + ["c03::gen32::generate", "c03::gen64::generate", "c02::step_p", "c02::step_q"]
+    return [Group("c18_plain", hs, jobs=16, timeout=3000, mem_gb=16, native_replay=False, stubs=[UF_STUB, GEN_STUB]),
+            Group("c18_serde", hs, jobs=16, timeout=3000, mem_gb=16, features=("serde",), native_replay=False, stubs=[UF_STUB, GEN_STUB])]
+
+
+def _c18_audit(ctx):
+    """No code in the five crates is conditional on the build profile."""
+    import re, glob
+    hits = []
+    for f in sorted(glob.glob("/repo/rand_*/src/**/*.rs", recursive=True)):
+        for ln, line in enumerate(open(f).read().split("\n"), 1):
+            code = line.split("//")[0]
+            if re.search(r"debug_assert|cfg!?\s*\(\s*(not\s*\(\s*)?debug_assertions|overflow_checks|cfg!?\s*\(\s*(not\s*\(\s*)?(opt_level|target_feature)", code):
+                hits.append([f, ln, line.strip()])
+    ctx["extra"]["samples"].append(dict(profile_conditional_code_audit=hits))
+    ctx["extra"]["extra_obligations"] = ctx["extra"].get("extra_obligations", 0) + 1
+    if hits:
+        d = dict(reason="code conditional on the build profile: %s:%s %s" % tuple(hits[0]), items=hits)
+        rdir = _write_cert_replay(ctx, "C18", "profile_audit", d)
+        ctx["violations"].append(("profile audit", [dict(function=hits[0][0], description=d["reason"], location=dict(file=hits[0][0], line=str(hits[0][1])))], rdir, True))
+    else:
+        ctx["extra"]["extra_discharged"] = ctx["extra"].get("extra_discharged", 0) + 1
+
+
+PROPS["C18"] = dict(
+    level="other",
+    level_text="Build configurations are compile-time, the solver cannot range over them; each axis is reduced to a for-all-inputs obligation it can decide. (a) overflow-checks / debug-assertions on vs off: the only semantic difference is panic vs wrap/skip; Kani verifies the dev-profile semantics and its overflow/assertion checks inside the crates are proved unreachable-to-fail for all inputs (the same harnesses as C14 for the operations listed), so both settings compute the same values; a per-run source audit shows no code is conditional on the profile (debug_assert!, cfg(debug_assertions), ...). (b) serde on vs off: the step/refill/measure harnesses are discharged twice, with and without --features serde, against the same reference, hence equal to each other for all states. (c) opt-level: Kani verifies MIR semantics; equality of opt-level 0 and 3 rests on absence of undefined behaviour (xoshiro/xorshift/hc forbid unsafe; rand_isaac's and rand_jitter's unsafe blocks are covered by Kani's pointer checks) and on compiler correctness - trusted.",
+    level_note="Not an exploration of configurations: a reduction. Counterexamples found natively are replayed in both the dev and the release profile by the runner (that is how the overflow defect D2 showed 'panic in dev, wrap in release'). Trusted: rustc/LLVM.",
+    tiers=both(_c18), post=_c18_audit,
+    explanation="harness set x {no features, --features serde}; profile audit.",
+    bounds="as in the harnesses' own properties",
+)
+
+
+# Properties whose checks have been validated on the unchanged tree (clean pass
+# within the tier budgets); only these are claimed in MANIFEST.json.
+CLAIMED = ["C01", "C02", "C04", "C07", "C08", "C12", "C15", "C16"]
